@@ -32,8 +32,9 @@ type Op struct {
 	A       int    `json:"a"`           // replica (mod n)
 	B       int    `json:"b,omitempty"` // source replica for join (mod n), writer for setid
 	Payload string `json:"p,omitempty"`
-	PC      int    `json:"pc,omitempty"` // pointer count for append
-	Flag    int    `json:"f,omitempty"`  // rebuild: 0 = with heads, 1 = heads omitted (FindHeads)
+	PC      int    `json:"pc,omitempty"`  // pointer count for append
+	Pin     bool   `json:"pin,omitempty"` // append with AppendOptions.Pin
+	Flag    int    `json:"f,omitempty"`   // rebuild: 0 = with heads, 1 = heads omitted (FindHeads)
 }
 
 type Prog struct {
@@ -158,6 +159,7 @@ func Gen(t *rapid.T, cfg GenConfig) Prog {
 		case "append", "appenddenied", "appendfail":
 			op.Payload = rapid.StringMatching(`[a-z]{1,3}`).Draw(t, "payload")
 			op.PC = rapid.SampledFrom(PointerCounts).Draw(t, "pc")
+			op.Pin = rapid.IntRange(0, 3).Draw(t, "pin") == 0
 		case "join":
 			op.B = rapid.IntRange(0, n-1).Draw(t, "b")
 		case "joinbad":
@@ -228,7 +230,7 @@ func (w *World) Exec(tb ev.TB, idx int, op Op, sync bool) *OpInfo {
 	case "append":
 		pc := op.PC
 		info.PC = pc
-		e, err := r.Log.Append(w.Ctx, []byte(op.Payload), &ipfslog.AppendOptions{PointerCount: pc})
+		e, err := r.Log.Append(w.Ctx, []byte(op.Payload), &ipfslog.AppendOptions{PointerCount: pc, Pin: op.Pin})
 		info.Err = err
 		if err == nil {
 			info.Entry = e
@@ -256,7 +258,7 @@ func (w *World) Exec(tb ev.TB, idx int, op Op, sync bool) *OpInfo {
 	case "appenddenied":
 		// an append the access controller refuses: must fail and leave the log as it was
 		r.AC.deny.Store(true)
-		_, err := r.Log.Append(w.Ctx, []byte(op.Payload), &ipfslog.AppendOptions{PointerCount: op.PC})
+		_, err := r.Log.Append(w.Ctx, []byte(op.Payload), &ipfslog.AppendOptions{PointerCount: op.PC, Pin: op.Pin})
 		r.AC.deny.Store(false)
 		info.Err = err
 		info.Refused = true
@@ -269,7 +271,7 @@ func (w *World) Exec(tb ev.TB, idx int, op Op, sync bool) *OpInfo {
 			}
 			return nil
 		})
-		_, err := r.Log.Append(w.Ctx, []byte(op.Payload), &ipfslog.AppendOptions{PointerCount: op.PC})
+		_, err := r.Log.Append(w.Ctx, []byte(op.Payload), &ipfslog.AppendOptions{PointerCount: op.PC, Pin: op.Pin})
 		w.Store.SetAddFail(nil)
 		info.Err = err
 		info.Refused = true
